@@ -16,6 +16,7 @@ mod c14;
 mod c15;
 mod c16;
 mod c17;
+mod c18;
 mod c19;
 
 use std::io::Write;
@@ -31,6 +32,7 @@ fn gen_all(id: &str, seed: u64, n: usize, thorough: bool) -> Vec<String> {
         "C15" => c15::gen_cases(seed, n, thorough),
         "C09" => c09::gen_cases(seed, n, thorough),
         "C12" => c12::gen_cases(seed, n, thorough),
+        "C18" => c18::gen_cases(seed, n, thorough),
         "C05" => c05::gen_cases(seed, n, thorough),
         "C17" => c17::gen_cases(seed, n, thorough),
         "C07" => c07::gen_cases(seed, n, thorough),
@@ -50,6 +52,7 @@ fn run_line(id: &str, line: &str) -> String {
         "C15" => c15::run_line(line),
         "C09" => c09::run_line(line),
         "C12" => c12::run_line(line),
+        "C18" => c18::run_line(line),
         "C05" => c05::run_line(line),
         "C17" => c17::run_line(line),
         "C07" => c07::run_line(line),
